@@ -62,7 +62,7 @@ def length_sweep(lo, hi):
 
 def gen_cases(tier):
     thorough = tier == "thorough"
-    depth = 5 if thorough else 4
+    depth = 6 if thorough else 4
     combos = list(itertools.product((1, 2), (1, 2)))  # auth x priv
     for auth, priv in combos:
         cfg = Cfg("v3", auth=auth, priv=priv)
@@ -104,7 +104,7 @@ def run(tier):
         "all histories to depth %d over {get, get_many(40), getnext(128 arcs), getbulk, encrypted reply, garbage, plaintext Report, time-out} "
         "x {DES,AES} x {MD5,SHA1}; scoped-PDU length sweep over all residues mod 8/16 x 9 (auth,priv) key-type pairs x {engine id given, "
         "discovered+set_keys}; boots/time corners; two interleaved privacy sessions. evaluations = msgData blobs decrypted and compared."
-        % (5 if tier == "thorough" else 4)
+        % (6 if tier == "thorough" else 4)
     )
     rec.assume(
         "DES/AES block primitives: pure-Python FIPS implementations cross-checked against OpenSSL libcrypto at start-up; chaining, IV and salt rules written from RFC 3414 s.8 / RFC 3826",
